@@ -55,6 +55,9 @@ type FuncContract struct {
 	Loops    map[int]*LoopContract
 	IsInit   bool
 	Decr     *Clause
+	FreshResult bool // the (first) slice result is a freshly allocated backing array nobody else holds
+	ReplayVia   []string // public entry points through which a counterexample of this (internal) function is searched
+	OwnsLists   bool // assumption: lists found in the maps this function builds are exclusively owned by it
 	Line     int
 	Mangled  string
 	// bound objects
@@ -167,7 +170,7 @@ func ParseContracts(fset *token.FileSet, files []*ast.File) *Contracts {
 					cur = fc
 				case "inv":
 					cs.InvExprs = append(cs.InvExprs, &Clause{Kind: "inv", Expr: expandSugar(rest), Raw: rest, Line: line, File: fname})
-				case "property", "old", "requires", "ensures", "modifies", "trusted", "pure", "inline", "invariant", "decreases":
+				case "property", "old", "requires", "ensures", "modifies", "trusted", "pure", "inline", "invariant", "decreases", "fresh-result", "owns-lists", "replay-via":
 					if cur == nil {
 						errf("clause outside func")
 						continue
@@ -182,6 +185,16 @@ func ParseContracts(fset *token.FileSet, files []*ast.File) *Contracts {
 						}
 					case "trusted":
 						cur.Trusted = true
+					case "fresh-result":
+						cur.FreshResult = true
+					case "owns-lists":
+						cur.OwnsLists = true
+					case "replay-via":
+						for _, f := range strings.Split(rest, ",") {
+							if f = strings.TrimSpace(f); f != "" {
+								cur.ReplayVia = append(cur.ReplayVia, f)
+							}
+						}
 					case "pure":
 						cur.Pure = true
 					case "inline":
